@@ -467,4 +467,9 @@ theorem doTarget_ok (baits : Table) (annot : Option Table) (short split : Bool) 
     rw [h2]
     exact ⟨_, _, rfl⟩
 
+/-- sorting a list that is already in (start, end) order changes nothing (used to evaluate examples:
+    the kernel does not unfold `List.mergeSort`) -/
+theorem sortSE_of_sorted (l : List Row) (h : l.Pairwise (fun a b => seLe a b = true)) : sortSE l = l :=
+  List.mergeSort_of_pairwise h
+
 end CnvVerif
